@@ -73,6 +73,12 @@ def concurrent_part(ctx, quick):
         # line-level preemption (every source line of the cache methods is a yield point)
         step = 7 if quick else 1
         jobs += [(p, "l%d" % i, 1, True, 2, ctx.seed) for i, p in enumerate(progs) if i % step == 0]
+        # bytecode-level preemption (a thread can be switched out inside one source line, e.g. between the
+        # load and the store of `statistics.hits += 1`): programs made of lookups and counter reads
+        def counting(p):
+            ops = [c["op"] for th in p["prog"].values() for c in th]
+            return all(o in ("get", "hits", "misses", "reset") for o in ops) and "get" in ops
+        jobs += [(p, "o%d" % i, 1, False, 0, ctx.seed, True) for i, p in enumerate(progs) if counting(p)][:(120 if quick else 100000)]
         if not quick:
             wide = ctx.generate("Gen_CacheLin", ctx.cfg("lin2.cfg", LIN_CFG.format(
                 threads='{"t1", "t2"}', calls="CallsWide", maxprog=2, maxrest=1)))
@@ -105,7 +111,7 @@ def concurrent_part(ctx, quick):
         progid = tr["tid"].rsplit(".", 1)[0]
         calls = sorted({c["op"] for th in jobmap[progid][0]["prog"].values() for c in th}) if progid in jobmap else []
         sig = "%s:%s:%s:%s" % (what if ops else (clause if clause != "unmatched" else "NotLinearizable"), tr["kind"],
-                               "line" if full["sched"].get("line") else "lock", "+".join(calls))
+                               "opcode" if full["sched"].get("opcode") else ("line" if full["sched"].get("line") else "lock"), "+".join(calls))
         ctx.violation(clause, sig, "%s cache: no sequential order explains the history %s (schedule %s)" % (
             tr["kind"], json.dumps(tr["ev"][-7:])[:400], json.dumps(full["sched"])),
             {"job": list(jobmap.get(progid, ())), "trace": full})
